@@ -90,6 +90,10 @@ def run(ctx, rep):
     # ---- R12.3 ordering in strip / escape (MIR)
     order_rules(ctx, rep)
     unit_rule(ctx, rep)
+    # "escaped text survives the codepage encode/decode path - carets included": the decoder must recognise markers wherever the
+    # encoder puts them, also directly behind an escaped caret (C10's R10.7)
+    from props import c10
+    c10.marker_scan(ctx, rep)
 
 
 BYTE_OFFSETS = r"core::str::<impl str>::(find|rfind|len|floor_char_boundary|ceil_char_boundary)$|alloc::string::String::len$|<impl char>::len_utf8$|CharIndices"
